@@ -707,11 +707,11 @@ func (c *CharSet) addCategory(categoryName string, negate, caseInsensitive bool)
 
 	// (decided on the table: "Lowercase_Letter" etc. are keys of their own for the same tables)
 	if tbl := unicodeCategories[categoryName]; caseInsensitive && (tbl == unicode.Ll || tbl == unicode.Lu || tbl == unicode.Lt) {
-		// when RegexOptions.IgnoreCase is specified then {Ll} {Lu} and {Lt} cases should all match
-		c.addCategories(
-			Category{Cat: "Ll", Negate: negate},
-			Category{Cat: "Lu", Negate: negate},
-			Category{Cat: "Lt", Negate: negate})
+		// when RegexOptions.IgnoreCase is specified then {Ll} {Lu} and {Lt} cases should all match:
+		// the cased letters LC = Lu | Ll | Lt. It has to be ONE category, because the categories
+		// of a class are a union and \P{Lu} must be "none of the three", not "not one of them".
+		c.addCategories(Category{Cat: "LC", Negate: negate})
+		return
 	}
 	c.addCategories(Category{Cat: categoryName, Negate: negate})
 }
